@@ -118,6 +118,14 @@ def check_meaning(ctx, backend, e, text):
     raw = ent.raw(u)
     if raw is None:
         raw = ""
+    # the string form must carry the same canonical component (str() may rebuild the authority, e.g. when a default port is dropped)
+    try:
+        # (only for URLs with an authority: a scheme-less relative URL whose first segment contains ':' is the known finding of C03)
+        again = ent.raw(Y.URL(str(u))) if u.raw_authority else raw
+        ctx.check((again or "") == raw, "str(url) does not carry the canonical component (re-parsing it gives a different raw value)", observed={"str": str(u), "reparsed": again}, expected=raw, entry=e)
+    except ValueError as ex:
+        if comp in ("user", "password", "path", "query", "fragment") and "suffix" not in ent.tags:
+            ctx.check(False, "str(url) of an auto-encoded URL is rejected by the constructor", observed={"str": str(u), "exc": ex}, expected="accepted", entry=e)
     sup = ent.prefix + t
     if "suffix" in ent.tags:
         if "." in t:
